@@ -1,0 +1,17 @@
+// +build verif
+
+// Verification hooks (build tag `verif` only).
+
+package gemmill
+
+import (
+	"github.com/spf13/viper"
+
+	"github.com/dappledger/AnnChain/gemmill/p2p"
+	"github.com/dappledger/AnnChain/gemmill/types"
+)
+
+// VerifAuthByCA is the certificate-authority admission check the node installs in its switch.
+func VerifAuthByCA(conf *viper.Viper, ppValidators **types.ValidatorSet) func(*p2p.NodeInfo) error {
+	return authByCA(conf, ppValidators)
+}
